@@ -119,6 +119,11 @@ def tus_for(table, tier, seed):
         cur.append(st)
         w += wt
     flush()
+    if table == 'C13':
+        # capacities of wide integer types for every digit count 65..260 (compile-time constants)
+        hdr = __file__.replace('C14.py', 'C13.py').replace('.py', '.h')
+        body = '#include "%s"\nint main(){ tc::init(); wide_caps<65, 98>(tc::table); wide_caps<163, 98>(tc::table); }\n' % hdr
+        res.append(dict(name='C13_widecaps', src=body, compiler='g++', env={'VH_TABLE': table}))
     # release-mode build (assertions become assumptions of the optimiser) and the second compiler
     extra = []
     pick = [r for i, r in enumerate(res) if i % (3 if thorough else 7) == 0]
